@@ -80,6 +80,11 @@ type Config struct {
 	// RequestTimeout is timeout duration for all synchronous requests over SecureChannel.
 	// If the Server doesn't respond within RequestTimeout time, Client returns StatusBadTimeout
 	RequestTimeout time.Duration
+
+	// AllowedSecurity is used by server channels only. If set, an OpenSecureChannel
+	// request is refused with StatusBadSecurityPolicyRejected unless the function
+	// accepts the security policy and mode the client asked for.
+	AllowedSecurity func(policyURI string, mode ua.MessageSecurityMode) bool
 }
 
 // SessionConfig is a set of common configurations used in Session.
